@@ -116,6 +116,13 @@ def _st(V):
         ("with_day acts on UTC", has_r_rec("tzwith"), lambda e: e["r"].__setitem__("n", e["r"]["n"] + 1)),
         ("from_local ignores the offset", lambda e: e.get("op") == "from_local" and isinstance(e.get("r"), dict) and "none" not in e["r"] and e["off"] != 0, lambda e: e.__setitem__("r", e["w"])),
     ])
+    rc |= T.corruption_selftest(V, "C04", "C04", "Trace_DateTz", [
+        ("Date<Tz>: succ skips a day", has_r_rec("dz.succ"), lambda e: e["r"].__setitem__("n", e["r"]["n"] + 1)),
+        ("Date<Tz>: offset lost by an operation", has_r_rec("dz.add"), lambda e: e["r"].__setitem__("off", e["r"]["off"] + 60)),
+        ("Date<Tz>: equality looks at the offset", lambda e: e.get("op") == "dz.rel" and e["eq"], lambda e: e.__setitem__("hasheq", False)),
+        ("Date<Tz>: and_time reads the date as UTC", lambda e: e.get("op") == "dz.and_time" and "none" not in e["r"] and e["x"]["off"] != 0, lambda e: e["r"].__setitem__("secs", e["t"]["secs"])),
+        ("Date<Tz>: text", lambda e: e.get("op") == "dz.show", lambda e: e["debug"].__setitem__(1, e["debug"][1] + 1)),
+    ])
     rc |= T.corruption_selftest(V, "C15", "C15", "Trace_Totality", [
         ("panic in a fallible op", lambda e: e.get("op") == "NaiveDate.from_ymd_opt", lambda e: (e.pop("out"), e.pop("v", None), e.__setitem__("panic", "boom"))),
         ("iterator did not end", lambda e: e.get("op") == "StrftimeItems.count", lambda e: e["v"].__setitem__("capped", True)),
